@@ -2,6 +2,7 @@
 from __future__ import annotations
 import ast
 import hashlib
+import json
 import os
 from dataclasses import dataclass, field
 from typing import Optional
@@ -10,6 +11,7 @@ from .astx import FUNC_NODES, unparse
 
 REPO_ROOT = os.environ.get('AIOSLSK_REPO', '/repo')
 PKG_DIR = 'src/aioslsk'
+KNOWN_FUNCS = os.path.join(os.path.dirname(os.path.dirname(os.path.abspath(__file__))), 'tables', 'known_functions.json')
 
 
 class AnalysisError(Exception):
@@ -111,6 +113,7 @@ class Repo:
         if not os.path.isdir(self.pkg):
             raise AnalysisError(f'package directory not found: {self.pkg}')
         h = hashlib.sha256()
+        mods: list[Module] = []
         for dirpath, dirnames, filenames in sorted(os.walk(self.pkg)):
             dirnames.sort()
             for fn in sorted(filenames):
@@ -130,7 +133,20 @@ class Repo:
                     dotted = dotted[:-9]
                 mod = Module(rel, dotted, path, src, tree)
                 self.modules[rel] = mod
-                self._index_module(mod)
+                mods.append(mod)
+        # normalisation: inline helpers the rule set has never seen (see sa/inline.py)
+        self.inline_log: list[str] = []
+        self.known_funcs: set[str] = set()
+        if os.environ.get('AIOSLSK_VERIF_NO_INLINE') != '1' and os.path.exists(KNOWN_FUNCS):
+            from .inline import Inliner
+            with open(KNOWN_FUNCS) as fh:
+                known = set(json.load(fh)['functions'])
+            self.known_funcs = known
+            inl = Inliner({m.rel: m.tree for m in mods}, known)
+            inl.run()
+            self.inline_log = inl.log
+        for mod in mods:
+            self._index_module(mod)
         self.digest = h.hexdigest()
 
     def _index_module(self, mod: Module):
